@@ -1,6 +1,6 @@
 (* Parametricity tie between the NumR and NumI instances:
    the free theorem of a polymorphic model says its NumI run encloses its NumR value. *)
-From Coq Require Import QArith ZArith Reals Qreals List.
+From Coq Require Import QArith ZArith Reals Qreals List Lra.
 From Param Require Import Param.
 From Interval Require Import Specific_bigint Specific_ops Float_full Interval Xreal Basic Float.
 From TT Require Import Num NumR NumI.
@@ -86,5 +86,14 @@ Proof.
     + exact H.
     + revert H. destruct (I.convert (I.ln prec A)); cbn; [intros; exact I | intros []].
   - intros a A Ha. exact (I.sqrt_correct prec A (Xreal a) Ha).
+  - intros a A Ha b B Hb. unfold rel. cbn [nmax NumR NumI]. unfold imax.
+    replace (Rmax a b) with ((a + b + Rabs (a - b)) * Q2R (1#2))%R.
+    + apply (I.mul_correct prec _ _ (Xreal _) (Xreal _)); [|apply rel_ofQ].
+      apply (I.add_correct prec _ _ (Xreal _) (Xreal _)).
+      * exact (I.add_correct prec A B (Xreal a) (Xreal b) Ha Hb).
+      * apply (I.abs_correct _ (Xreal _)).
+        exact (I.sub_correct prec A B (Xreal a) (Xreal b) Ha Hb).
+    + unfold Q2R; simpl. unfold Rmax, Rabs.
+      destruct (Rle_dec a b); destruct (Rcase_abs (a - b)); lra.
 Qed.
 Print Assumptions NumRI_R.
